@@ -49,7 +49,7 @@ def gen(rng):
     reader = rng.choice(['list', 'restore', 'restore', 'rm', 'empty'])
     stdin = ''
     if reader == 'list':
-        argv = ['trash-list']
+        argv = ['trash-list'] + rng.choice([[], [], [], ['--size'], ['--files']])
     elif reader == 'restore':
         argv = ['trash-restore', '/'] + rng.choice([[], [], ['--sort=date'], ['--sort=path'], ['--sort=none']])
         stdin = '?'
